@@ -10,7 +10,9 @@ Object keys are drawn from the abstract classes S (sensitive), S' (a second sens
 The concrete key for S ranges over every word of the property statement's list x spelling variants
 {lower, UPPER, Title, aLtErNaTiNg, embedded as substring ``x_<w>_y``}.  Every leaf carries a unique marker
 (string ``MK<i>Q`` or negative 13-digit integer, per the leaf-kind dimension) that cannot occur elsewhere in a
-record.  Depth = number of nested containers including the claims object itself: <=3 quick, <=4 thorough.
+record.  Depth = number of nested containers including the claims object itself: <=3 quick, <=4 thorough; on top of that all
+LINEAR chains (one entry per container) of depth 4-5 (quick) / 5-6 (thorough), i.e. every object/list alternation such as
+list-in-list-in-object, with three word x spelling representatives.
 
 Oracle (weakest reading of the statement; reference list written from the statement / access-log-spec §4.5, not
 from the repo's regex):
@@ -39,7 +41,8 @@ SHARDS = {"quick": 8, "thorough": 16}
 RULE = (
     "all claim trees (object/list containers, 1 entry or 2 entries with one leaf sibling, key classes S/S'/N/N') of "
     "container depth <=3 (quick) / <=4 (thorough) x every sensitive word of the statement's list x spelling variant "
-    "{lower,UPPER,Title,alternating,substring} x leaf kind {str,int} (quick: int leaves only with the lower spelling); plus every tree x {raising redactors}; each one "
+    "{lower,UPPER,Title,alternating,substring} x leaf kind {str,int} (quick: int leaves only with the lower spelling); plus all "
+    "linear chains of depth 4-5 (quick) / 5-6 (thorough) x 3 word/spelling representatives; plus every tree x {raising redactors}; each one "
     "real authenticated HTTP call; non-trivial = record carried a claims object (or redactor was invoked), classed by "
     "depth of the deepest sensitive key and the container kinds above it"
 )
@@ -114,6 +117,27 @@ def shapes(depth: int) -> Iterator[Any]:
     for v in values(depth):
         if v != "L" and v[0] == "O":
             yield v
+
+
+def chains(depth: int) -> Iterator[Any]:
+    """Linear claim trees (every container has ONE entry, or a list with one leaf sibling) of exactly *depth* containers:
+    all 3^(depth-1) container-kind/key-class sequences below the claims object, so that deep list-in-list / object-in-list
+    alternations are covered beyond the full grammar's depth bound."""
+
+    def below(d: int) -> Iterator[Any]:
+        if d == 0:
+            yield "L"
+            return
+        for sub in below(d - 1):
+            yield ["O", [("S", sub)]]
+            yield ["O", [("N", sub)]]
+            yield ["A", [sub]]
+            if d <= 2:
+                yield ["A", ["L", sub]]
+
+    for sub in below(depth - 1):
+        for kc in ("S", "N"):
+            yield ["O", [(kc, sub)]]
 
 
 def has_s(shape: Any) -> bool:
@@ -350,6 +374,20 @@ def run(ctx: Ctx) -> None:
             ctx.extra["shapes"] += 1
             for case in shape_cases(shape, ctx.quick):
                 judge(ctx, rig, case)
+        # linear chains beyond the full grammar's depth: one spelling per sensitive word class is enough here (the
+        # spelling dimension is crossed with every shape of the full grammar above)
+        for d in ((4, 5) if ctx.quick else (5, 6)):
+            for shape in chains(d):
+                if not ctx.mine():
+                    continue
+                ctx.extra["chain_shapes"] = ctx.extra.get("chain_shapes", 0) + 1
+                if has_s(shape):
+                    for word, variant in (("email", "lower"), ("password", "upper"), ("key", "sub")):
+                        if spell(word, variant) is None:
+                            continue
+                        judge(ctx, rig, {"shape": shape, "word": word, "variant": variant, "leaf": "str", "redactor": "default"})
+                else:
+                    judge(ctx, rig, {"shape": shape, "word": "email", "variant": "lower", "leaf": "mixed", "redactor": "default"})
     finally:
         rig.close()
 
